@@ -54,9 +54,9 @@ def main(tier):
             if not res["ante"].get(k):
                 raise tla.MachineryError(f"judge antecedent {k} never true")
         # the state x action tables of the core scenarios contribute the per-call clauses (peer / class default untouched)
-        ev2, res2 = _sc.R.collect(rep, ["list_int", "set_str", "nested", "list_spec"], tier, max_pairs=6000 if not thorough else None, seed=common.seed())
-        _sc.R.report_clauses(rep, ev2, res2, ["c08_"])
-        rep.add_events(len(ev2), len({common.canon([e["scn"], e["pre"], e["a"]]) for e in ev2 if e["res"] != "ok" or not e["same"]}), [])
+        r2 = _sc.R.collect(rep, ["list_int", "set_str", "nested", "list_spec"], tier, max_pairs=6000 if not thorough else None, seed=common.seed())
+        _sc.R.report_clauses(rep, r2, ["c08_"])
+        rep.add_events(r2["n"], r2["distinct"], [])
         rep.assumptions += ["in-place mutation of nested values ('pokes') uses direct container operations and in-place helpers at depth",
                             "nearest-default rule takes the MRO from the real classes as an input"]
         return rep.finish(rule="random histories (40 operations each) over Base / spec subclass / plain subclass / plain subclass of spec subclass mixing construction with retained "
